@@ -550,7 +550,7 @@ def cli_written_check(ctx, idx, op, m):
             p = t.split(":")
             plan.append((int(p[0]), int(p[1]), len(p) > 3 and p[3] == "b"))
     late = op[5].lstrip("c") if len(op) > 5 else "-"
-    if late not in ("-", ""):
+    if late not in ("-", "", "D"):
         plan.append((int(late), 0, False))
     # per send: result and the octets accepted while it was in progress
     cur, acc, rets = None, {}, {}
@@ -849,6 +849,16 @@ def judge_c15(ctx, idx, op, impl, mi, ms, reason):
 
 
 def judge_c16(ctx, idx, op, impl, mi, ms, reason):
+    if op[0] == "fbyname":
+        # by-name construction through a copy of the dictionary kept earlier: it answers from what the copy holds
+        ctx.count("fbyname_" + impl.split(":")[0])
+        if mi == "ok:*":
+            ok = impl.startswith("ok:")
+        else:
+            ok = impl == mi
+        if not ok:
+            return [Finding("property", idx, "a copy of the dictionary taken earlier does not answer a by-name construction from what IT holds (the current dictionary has changed since)", expected=mi, observed=impl, name="C16_which")]
+        return []
     label = ctx.case_label or ""
     st = ctx.case_state
     r = kv(reason)
